@@ -154,3 +154,27 @@ func (o *Oracles) TimeoutNowsTo(id string, sinceMs int64) int {
 	}
 	return n
 }
+
+// RestoreFloor is the highest burned index of a user Restore so far.
+func (o *Oracles) RestoreFloor() uint64 { return o.restoreFloor }
+
+// RestoreConfirmed: a user Restore on this server returned nil (its state is
+// now the agreed one).
+func (o *Oracles) RestoreConfirmed(id string) {
+	if o.unconfirmedRestores[id] > 0 {
+		o.unconfirmedRestores[id]--
+	}
+}
+
+// Tainted reports whether some server took a user-restore snapshot whose
+// Restore call has not returned nil: the documented hazard of Restore (the
+// leader replaces its state before it knows that it can commit) - nothing is
+// claimed about such a run by any property.
+func (o *Oracles) Tainted() bool {
+	for _, n := range o.unconfirmedRestores {
+		if n > 0 {
+			return true
+		}
+	}
+	return false
+}
